@@ -56,7 +56,7 @@ SPEC = {
         "consensus/ucon/voter.go:Voter.processVoteMsg",
         "consensus/ucon/vote_bls.go:VoteBLSMgr.SignVote",
     ],
-    "level_text": "Coq theorems over all evidence lists, ledgers, look-back chains and signature oracles: an honest validator can be slashed only through one of the listed finding classes (refuted in full strength, with witnesses); real equivocation is always acted on; doPenalize runs at most once per validator and block and an evidence acts at one height; takePenalty never exceeds the amount, never drives a source negative and accounts for every unit; the validator's replay of the builder's slash data reproduces the builder's effects outside the zero-penalty class. The hand model mirrors processDoubleSignV5 / processEvidences / slashing / replaySlashing / doPenalize / takePenalty / LookBackVldReaderForRound and is compared inside Coq with the real code (real BLS keys and signatures, real state database and header store) on hundreds of adversarial cases per run.",
+    "level_text": "Coq theorems over all evidence lists, ledgers, look-back chains and signature oracles: an honest validator can be slashed only through one of the listed finding classes (refuted in full strength, with witnesses); real equivocation is always acted on; doPenalize runs at most once per validator and block and an evidence acts at one height; takePenalty never exceeds the amount, never drives a source negative and accounts for every unit; the validator's replay of the builder's slash data reproduces the builder's effects outside the zero-penalty class. The hand model mirrors processDoubleSignV5 / processEvidences / slashing / replaySlashing / doPenalize / takePenalty / LookBackVldReaderForRound and is compared inside Coq with the real code (real BLS keys and signatures, real state database and header store) on hundreds of adversarial cases per run; the votes evidences are assembled from come from real honest Voter runs (updateContext / judgeVoteCount / signVote / VoteBLSMgr.SignVote) on the same world, and the honest double-vote detector (processVoteMsg) is checked to post exactly the evidences for two different hashes of one kind.",
     "level_note": "Trusted: Coq kernel + vm_compute; BLS enters as a function with the ideal-signature hypothesis; fidelity of the hand model rests on the differential check (reach reported in evidence); uint64 wrap-around, RLP decoding and the ValidatorsStat bookkeeping are outside the model; four open findings are listed in props/C05.py (KNOWN) with witnesses in corpus/C05 and write-ups in fixes/.",
     "harness": "c05",
     "hooks": ["core/zz_verif_c05.go", "staking/zz_verif_c05.go", "consensus/ucon/zz_verif_c05.go"],
@@ -68,10 +68,11 @@ SPEC = {
         "C05_honest_safe_refuted", "C05_honest_safe_outside", "C05_honest_record_kept", "C05_duplicate_class",
         "C05_real_equivocation_punished", "C05_once", "C05_once_token_bound", "C05_one_height",
         "C05_bound", "C05_shares", "C05_penalize_effects", "C05_builder_validator_outside", "C05_builder_validator_refuted",
-        "C05_real_params_ok", "C05_nonvacuous_honest", "C05_nonvacuous_bound", "C05_nonvacuous_builder",
+        "C05_real_params_ok", "C05_vote_kinds_agree", "C05_nonvacuous_honest", "C05_nonvacuous_bound", "C05_nonvacuous_builder",
     ],
     "cases": {"quick": 500, "thorough": 6000},
     "shard": 500,
+    "drift_boost": 3,
     "gen_args": [],
     "allowed_axioms": [],
     "finding_key": lambda h: h.get("what"),
@@ -81,6 +82,7 @@ SPEC = {
         "hand-written model coq/C05/Model.v of processDoubleSignV5 / processEvidences / slashing / replaySlashing / doPenalize / takePenalty / LookBackVldReaderForRound",
         "BLS verification is a function parameter of the model; theorems about honest validators assume ideal signatures (a signature valid under an honest key was produced by its owner on exactly that hash||round||index)",
         "correspondence harness harness/cmd/c05 (Go, real BLS keys and signatures, real StateDB / header store / BlockChain look-back via add-only hooks) + in-Coq evaluation of the model on the same cases; the harness' own validator-set ordering, look-back arithmetic and signature-validity table",
+        "consensus side (oracle only, no Coq model): real Voter objects with stub sortition/priority callbacks; completion of the asynchronous event mux is detected through the voter's own 'SelfVote.' / 'DoubleVote.' log records",
         "translator 'c05 params' (StakeUint, CommissionRateBase, 2*ACoCHTFrequency, PenaltyFractionForDoubleSign of all nets -> coq/gen/C05Params.v)",
         "the harness' measurement of which of the two proposed repairs the working tree contains (passed to the model as fx)",
     ],
